@@ -108,7 +108,7 @@ def jobs(tier):
     if q:
         combos = [(f, b, s, 2, 1) for f in ("oid", "path") for b in (1, 3) for s in (0, 1)]
     else:
-        combos = [(f, b, s, 2, 2) for f in ("oid", "path") for b in (1, 3) for s in (0, 1)] + \
+        combos = [(f, b, s, 2, 2) for f in ("oid", "path") for b in (3,) for s in (0, 1)] + [(f, 1, s, 2, 1) for f in ("oid", "path") for s in (0, 1)] + \
                  [(f, b, s, 2, 1) for f in ("mixed",) for b in (1, 3) for s in (0, 1)] + \
                  [(f, b, s, 2, 1) for f in ("oid-ci", "oid-filt") for b in (0, 1, 3) for s in (0, 1)]
         # three operations with the coarser schedule (after each operation nothing or one fair round)
